@@ -160,4 +160,8 @@ def run(ctx):
                    "C20.R8)")
     from .c20 import constructor_rule
     constructor_rule(ctx, sym, 'R9', ['correct', 'muted', 'kind'])
+    # what decides visibility must belong to this grading: suppressions of an earlier one are gone after clear()
+    from .c13 import r2_clear_complete
+    r2_clear_complete(ctx, sym, rule='R10', only={'suppressions', 'suppressed_labels', 'hiddens', 'feedback',
+                                                  'ignored_feedback'})
     ctx.assume("instructor-defined Feedback subclasses are outside the class table")
